@@ -13,10 +13,13 @@ MCInit ==
        /\ (kind = "eval" => K = 1 /\ maxfun = 0)
        /\ (kind = "nested" => failAt = 0)
        /\ (ab[2] > NH + NO => kind = "nested")
-       /\ \E twoctx \in BOOLEAN :            \* the inner plan lives on its own OptimizerContext (observers on the root one)
-            /\ (twoctx => kind = "nested")
+       /\ \E twoctx \in BOOLEAN : \E redir \in BOOLEAN :
+            \* twoctx: the inner plan lives on its own OptimizerContext (observers on the root one)
+            \* redir: optimizer.stdout is configured (output redirection is active while the backend runs); the event
+            \*        protocol, the exit codes and the abort latch do not depend on it
+            /\ (twoctx => kind = "nested") /\ (redir => kind # "eval")
             /\ cfg = [kind |-> kind, K |-> K, Kin |-> Kin, failAt |-> failAt, maxfun |-> maxfun,
-                      abEm |-> ab[1], abRc |-> ab[2], abCall |-> ab[3], twoctx |-> twoctx]
+                      abEm |-> ab[1], abRc |-> ab[2], abCall |-> ab[3], twoctx |-> twoctx, redir |-> redir]
        /\ m = NewStep(1, 1, IF kind = "eval" THEN "eval" ELSE "opt", K, kind = "nested")
   /\ stack = <<>> /\ stream = <<>> /\ emc = 0 /\ callc = 0
   /\ aborted = <<FALSE, FALSE>> /\ rets = <<>> /\ refused = <<>>
